@@ -149,6 +149,15 @@ def worker(job):
         inst = distgen.gen_instance(rng, graph="constraints_hypergraph" if method == "oilp_cgdp" else "factor_graph", tiny=True, asymmetric_routes=True)
         inst["hints"] = {"must_host": {}, "host_with": {}}
         shape_instance(rng, inst)
+        cons = inst["case"]["constraints"]
+        multi = [c for c in cons if len(c["scope"]) >= 2]
+        if method == "oilp_cgdp" and multi and rng.random() < 0.4:
+            # a second constraint over the same variables: two links of the hyper-graph share their couples of computations
+            c = dict(rng.choice(multi))
+            c["name"] = c["name"] + "_bis"
+            cons.append(c)
+        couples = [p for c in cons for p in itertools.combinations(sorted(c["scope"]), 2)]
+        R.count("instances_with_links_sharing_a_couple_of_computations", 1 if len(couples) != len(set(couples)) else 0)
         try:
             P, outcome, info = check(inst, method)
         except Exception as e:
